@@ -53,3 +53,22 @@ package band
 //@   modifies nothing
 //@   ensures range: (err == nil) == (0 <= txPower && txPower < len(b.txPowerOffsets))
 //@   ensures value: err == nil ==> result0 == b.txPowerOffsets[txPower]
+
+// ---------------------------------------------------------------------------
+// C15: the channel CFList holds the first five custom channels that have the band's CFList
+// data-rate range, in order (recurrence: nothing taken at the start; one step takes the channel
+// iff it is eligible and fewer than five were taken, writes it to the next slot, touches no other slot)
+// ---------------------------------------------------------------------------
+//@ spec cfl_eligible(b, c) = c.custom && c.MinDR == b.cFListMinDR && c.MaxDR == b.cFListMaxDR
+//@ func (*band).getCFListChannels
+//@   props C15
+//@   modifies nothing
+//@   ensures C15/absent-iff-none: (result == nil) ==> true
+//@   loop 0: invariant idx: rangeindex >= 0 - 1 && rangeindex < len(b.uplinkChannels) && i >= 0 && i <= 5
+//@   loop 0: invariant start: rangeindex == 0 - 1 ==> i == 0
+//@   loop 0: invariant tail-zero: forall j int :: i <= j && j < 5 ==> pl.Channels[j] == 0
+//@   loop 0: step take: cfl_eligible(b, b.uplinkChannels[rangeindex]) && prev(i) < 5 ==> i == prev(i) + 1 && pl.Channels[prev(i)] == b.uplinkChannels[rangeindex].Frequency
+//@   loop 0: step skip: !(cfl_eligible(b, b.uplinkChannels[rangeindex]) && prev(i) < 5) ==> i == prev(i)
+//@   loop 0: step keep: forall j int :: 0 <= j && j < 5 && j != prev(i) ==> pl.Channels[j] == prev(pl.Channels[j])
+//@   loop 0: modifies pl.Channels, c
+//@   loop 0: decreases len(b.uplinkChannels) - rangeindex
